@@ -373,6 +373,26 @@ class Check:
         self.ob_errors = ob["errors"]
         return ob
 
+    def coqchk(self, prop_file=None, timeout=2400):
+        """thorough tier: re-check the compiled props file and everything it depends on with the
+        independent checker; its context summary (axioms, unsafe features) goes into the evidence"""
+        pf = prop_file or self.pid
+        p = subprocess.run(["timeout", str(timeout), "coqchk", "-silent", "-o", "-R", "theories", "TJ",
+                            f"TJ.props.{pf}"], cwd=COQDIR, capture_output=True, text=True)
+        out = p.stdout + p.stderr
+        summ = out[out.find("CONTEXT SUMMARY"):] if "CONTEXT SUMMARY" in out else out[-1500:]
+        axioms = re.findall(r"(?m)^\s+([A-Za-z_][\w.']*)\s*$", summ.split("* Axioms:")[1].split("* Constants")[0]) \
+            if "* Axioms:" in summ else []
+        self.cov["coqchk"] = {"exit": p.returncode, "axioms": axioms,
+                              "type_in_type": "type-in-type: <none>" in summ,
+                              "summary_tail": summ[-800:]}
+        bad = [a for a in axioms if a.split(".")[-2:] and ".".join(a.split(".")[-2:]) not in ALLOWED_AXIOMS
+               and a not in ALLOWED_AXIOMS]
+        if p.returncode != 0:
+            self.ob_errors.append("coqchk failed: " + out[-600:])
+        elif bad:
+            self.ob_errors.append(f"coqchk reports axioms outside the allowed list: {bad}")
+
     # -- violations -----------------------------------------------------------------------------
     def violation(self, what: str, replay: dict, no_input=False, key=None):
         """Record a violation.  `key` (dict) is matched against known_findings.json."""
